@@ -4,7 +4,7 @@
 From Coq Require Import List Arith ZArith.
 From EN Require Import Lib.Bytes Frame.Framer Frame.ReadUntil Frame.BufReadUntil Stream.Consumer Stream.SpecDecode
   Frame.Serialize Frame.Convert Frame.JsonRaw Frame.JsonGrammar Frame.ErrSites Frame.Generic
-  Frame.Base64 Proofs.Base64_proofs Proofs.C01_base64 Frame.Stapled Gen.ParamsC01 Proofs.C01_stapled Proofs.C07_extra Proofs.C01_generic Proofs.C01_json Proofs.C01_bufsim Proofs.C01_proofs Proofs.Convert_proofs Proofs.BufConvert_proofs Proofs.Fixed_proofs Proofs.BufFixed_proofs Proofs.Serialize_proofs.
+  Frame.NtStruct Proofs.NtStruct_proofs Frame.Base64 Proofs.Base64_proofs Proofs.C01_base64 Frame.Stapled Gen.ParamsC01 Proofs.C01_stapled Proofs.C07_extra Proofs.C01_generic Proofs.C01_json Proofs.C01_bufsim Proofs.C01_proofs Proofs.Convert_proofs Proofs.BufConvert_proofs Proofs.Fixed_proofs Proofs.BufFixed_proofs Proofs.Serialize_proofs.
 Import ListNotations.
 
 (* Copying consumer (StreamDataConsumer over read_until): for EVERY list of packets valid for the codec, EVERY way of
@@ -301,6 +301,32 @@ Theorem base64_wrapper_stream_roundtrip :
                     bcons c' = None /\ balready c' = 0 /\ bexported c' = None.
 Proof. exact Proofs.C01_base64.base64_wrapper_stream_roundtrip_proof. Qed.
 Print Assumptions base64_wrapper_stream_roundtrip.
+
+(* ---- NamedTupleStructSerializer (serializers/struct.py; model Frame/NtStruct.v: a string field of n bytes padded with
+   NULs by struct.pack, trailing NULs stripped by from_tuple, optional ascii decoding; one unsigned byte). *)
+
+(* Every packet whose string field fits, does not end with a NUL when trailing NULs are stripped (is exactly n bytes long
+   when they are not) and is decodable comes back unchanged from deserialize(serialize(p)) — interior NULs included —
+   and therefore (fixed_size_roundtrip) survives every chunking of the stream on the copying path. *)
+Theorem namedtuple_struct_roundtrip :
+  forall (n : nat) (strip ascii : bool) (pkts : list (bytes * N)) (chunks : list bytes) (fuel : nat),
+    Forall (fun p => length (fst p) <= n /\ (strip = true -> rstrip0 (fst p) = fst p) /\
+                     (strip = false -> length (fst p) = n) /\
+                     (ascii = true -> forallb (fun b => N.ltb b 128) (fst p) = true)) pkts ->
+    Forall (fun ch => ch <> []) chunks ->
+    let enc := fun p : bytes * N => nt_serialize n (fst p) (snd p) in
+    concat chunks = concat (map enc pkts) ->
+    length (concat (map enc pkts)) < fuel ->
+    cdeliver (rx_framer (S n) (nt_deserialize n strip ascii)) fuel (cinit _) chunks =
+      (@Build_cstate _ (rx_framer (S n) (nt_deserialize n strip ascii)) [] None, map RPkt pkts).
+Proof.
+  intros n strip ascii pkts chunks fuel Hv Hch enc Hc Hf.
+  apply (fixed_roundtrip_l (S n) (nt_deserialize n strip ascii) (le_n_S 0 n (Nat.le_0_l n)) enc pkts chunks fuel); try assumption.
+  eapply Forall_impl; [|exact Hv]. intros [name x] (H1 & H2 & H3 & H4). cbn [fst snd] in *. split.
+  - exact (nt_serialize_length n name x H1).
+  - exact (nt_roundtrip n strip ascii name x H1 H2 H3 H4).
+Qed.
+Print Assumptions namedtuple_struct_roundtrip.
 
 (* ---- composite serializers (serializers/composite.py).  [stapled_class] is regenerated on every run as the complete
    table of the dispatch of StapledPacketSerializer.__new__ (Gen/ParamsC01.v: real constructors on every combination). *)
